@@ -454,8 +454,20 @@ def op_case(ctx, c):
             ctx.ok((dt.family, wclass(dt), what, opn, ic, exp[0]), bool(items))
             return True
 
-        def desc(z):
-            return (str(z.dtype), z.tolist())
+        def desc(z, inplace=False):
+            d = (str(z.dtype), z.tolist())
+            if not inplace and isinstance(z, Array):
+                # the result of a (non-in-place) operator is a new Array: changing it must not reach the operand
+                if z is a:
+                    ctx.mismatch(f'C14|{kind}:{opn}|any|result-is-the-operand-itself', c, '')
+                else:
+                    snap = B(a.data)
+                    if len(z.data):
+                        z.data.invert()
+                    z.data.append('0b1')
+                    if B(a.data) != snap:
+                        ctx.mismatch(f'C14|{kind}:{opn}|any|result-shares-data-with-operand', c, '')
+            return d
 
         if kind == 'scalar':
             val = c['val']
@@ -546,7 +558,7 @@ def op_case(ctx, c):
 
             def inplace():
                 x = fi(b, v)                           # the same mask object (or string) a second time
-                return desc(x), x is b
+                return desc(x, inplace=True), x is b
             got2 = call(inplace)
             if mask_now() != vbits:
                 ctx.mismatch(f'C14|bitwise-inplace:{opn}|{"many" if len(items) >= 16 else "few"}-items|mask-operand-changed', c,
